@@ -113,3 +113,11 @@ def run(model: Model, rep: Report) -> None:
     from .c15 import unique_name_rule
 
     unique_name_rule(model, rep, "C18-R5")
+    # ---------------------------------------------------------------- R7 (the dispatch part of C03-R3): image data go through the same predictors
+    r7 = rep.rule("C18-R7", "DISPATCH", "sample data behind a predictor are un-predicted: Predictor 1 -> nothing, 2 -> TIFF, >= 10 (all PNG tags, also 10 = None) -> PNG row decoding", 1)
+    dec = model.func("pdfminer.pdftypes.PDFStream.decode")
+    tests = []
+    for n in walk_no_nested(dec.node):
+        if isinstance(n, ast.If) and isinstance(n.test, ast.Compare) and unparse(n.test.left) == "pred":
+            tests.append("".join(unparse(n.test).split()))
+    r7.check(sorted(tests) == ["pred==1", "pred==2", "pred>=10"], site(dec), dec.qualname, "branches on the predictor code: == 1, == 2, >= 10", why=f"{sorted(tests)}: with /Predictor 10 every row still starts with its PNG tag byte, so treating 10 as `no predictor` leaves the tags in the samples and shears the image")
